@@ -340,8 +340,8 @@ def ffnms(ty, a, b, c):
     # -(x*y) - z
     return [P('fused', _fma(ty, T.fneg(a), b, T.fneg(c))), P('fused', _fma(ty, a, T.fneg(b), T.fneg(c))),
             P('-(x*y) - z', _fsub(ty, T.fneg(_fmul(ty, a, b)), c)),
-            P('(-x)*y - z', _fsub(ty, _fmul(ty, T.fneg(a), b), c)),
-            P('-(x*y + z)', T.fneg(_fadd(ty, _fmul(ty, a, b), c)))]
+            P('(-x)*y - z', _fsub(ty, _fmul(ty, T.fneg(a), b), c))]
+    # NOT accepted: -(x*y + z) -- it differs from the forms above in the sign of an exactly cancelling result (-0 for +0)
 
 
 def fminmax(which):
